@@ -5,5 +5,6 @@ CONSTANTS
   Permute = TRUE
   CheckOnTableHit = TRUE
   RepairFalseResult = TRUE
+  LinkStopsAtNegation = FALSE
 CONSTRAINT Export
 CHECK_DEADLOCK FALSE
